@@ -87,6 +87,7 @@ def check(ctx):
                   for s in sigs), 'R12', base_rs.where, base_rs.qualname, 'yield self.process_resource(res)',
               'the base resource loop does not forward every resource')
     run.floor('R12', n, 7, 'observer loops')
+    observers.writer_keeps_no_row(ctx)
 
     from rules import independence
     independence.r28_functions(ctx, [(roles['rows'].qualname, {}), (rp.qualname, {}),
